@@ -179,7 +179,10 @@ func (g *gctx) stmt(sc scope, depth int) Stmt {
 			s.C = g.list(sc, depth-1, 2)
 			// a finally list ending in a direct branch, preceded by a conditional nested branch (finding C08-N7 region)
 			if b1, ok := g.branch(sc); ok && r.Chance(12) {
-				b2, _ := g.branch(sc)
+				b2, ok2 := g.branch(sc)
+				if !ok2 {
+					b2 = b1
+				}
 				s.C = []Stmt{{K: "if", A: []Stmt{b1}, B: []Stmt{{K: "block"}}}, b2}
 			}
 		}
